@@ -160,6 +160,10 @@ def o12(ctx):
     ctx.count(1, {"reader data term": tm.show(dt)[:160] if dt is not None else None})
     if dt is None:
         raise Unsupported("table built by read_in has no recognised data source", fn)
+    # a widening cast (float32 of the file -> Python float / float64) keeps every value: it is the `dtype=float` of the constructor
+    while dt.op == "call" and dt.args[0] == ".astype" and len(dt.args) == 3 and tm.show(dt.args[2]).strip("'") in (
+            "ref:builtins.float", "float", "float64", "ref:numpy.float64", "ref:numpy.double", "double", "ref:numpy.longdouble"):
+        dt = dt.args[1]
     ops = {n.op for n in tm.walk(dt)} | {n.args[0] for n in tm.walk(dt) if n.op == "call"}
     if dt != want_data:
         if "ite" in ops or "transposed" in ops or ".T" in ops or any(o in ops for o in ("add", "mul", "sub")):
@@ -206,25 +210,59 @@ def _dispatch(prog, q, var="motl_type"):
     return m, fn, table
 
 
+FORMATS = ("emmotl", "relion", "stopgap", "dynamo")
+
+
+def _probe_dispatch(ctx, q, key):
+    """which particle-list class does Motl.load / Motl.write_out construct for this format key?  Decided by interpreting the function
+    with the key as a constant (so an if-chain, a lookup table or a helper are the same thing); the class constructors are summarised"""
+    classes = [c for c in ("EmMotl", "RelionMotl", "StopgapMotl", "DynamoMotl", "ModMotl") if ctx.prog.has("cryomotl." + c)]
+    hits = []
+
+    def summ(c):
+        def f(it, args, kwargs, node, fr):
+            hits.append(c)
+            return Obj("cryomotl." + c, {"df": motl_frame(ctx.prog)})
+        return f
+
+    it = Interp(ctx.prog, summaries={"cryocat.cryomotl." + c: summ(c) for c in classes},
+                no_inline=tuple(f"cryomotl.{c}.write_out" for c in classes),
+                assume=assume_map({"isinstance(input_motl, Motl)": False}))
+    try:
+        if q.endswith(".load"):
+            it.run(q, [K("list.file")], {"motl_type": K(key)}, self_obj=ClassRef("cryomotl.Motl"))
+        else:
+            it.run(q, [K("out.file")], {"motl_type": K(key)}, self_obj=motl_obj(ctx.prog))
+    except AbstractRaise:
+        pass
+    return sorted(set(hits))
+
+
 def o15(ctx):
-    mw, fw, tw = _dispatch(ctx.prog, "cryomotl.Motl.write_out")
-    ml, fl, tl = _dispatch(ctx.prog, "cryomotl.Motl.load")
-    ctx.touched("cryomotl.Motl.write_out", "cryomotl.Motl.load")
-    ctx.count(len(tw) + len(tl), {"write_out": {k: v[0] for k, v in tw.items()}, "load": {k: v[0] for k, v in tl.items()}})
-    if not tw or not tl:
-        raise Unsupported("dispatch chain on motl_type not recognised")
-    for k in sorted(set(tw) | set(tl)):
-        a, b = tw.get(k), tl.get(k)
-        if a is None or b is None:
-            n = (a or b)[1]
-            ctx.finding("cryomotl.Motl.write_out" if a else "cryomotl.Motl.load", n.test,
-                        f"format key {k!r} is handled by only one of Motl.write_out / Motl.load", n.test, mw if a else ml)
-        elif a[0] != b[0]:
-            ctx.finding("cryomotl.Motl.write_out", a[1].test, f"format key {k!r} is written by {a[0]} but loaded by {b[0]}",
-                        a[1].test, mw)
-    for name, t, mm in (("write_out", tw, mw), ("load", tl, ml)):
-        if "emmotl" not in t or t["emmotl"][0] != "EmMotl":
-            ctx.finding(f"cryomotl.Motl.{name}", "dispatch on 'emmotl'", f"Motl.{name} must map 'emmotl' to EmMotl", None, mm)
+    qw, ql = "cryomotl.Motl.write_out", "cryomotl.Motl.load"
+    mw, fw = ctx.prog.func(qw)
+    ml, fl = ctx.prog.func(ql)
+    ctx.touched(qw, ql)
+    tw = {k: _probe_dispatch(ctx, qw, k) for k in FORMATS + ("no-such-format",)}
+    tl = {k: _probe_dispatch(ctx, ql, k) for k in FORMATS + ("no-such-format",)}
+    ctx.count(len(tw) + len(tl), {"write_out": tw, "load": tl})
+    if not any(tw.values()) or not any(tl.values()):
+        raise Unsupported("dispatch on motl_type not recognised (no particle-list class is constructed for any format key)")
+    for k in FORMATS:
+        a, b = tw[k], tl[k]
+        if len(a) > 1 or len(b) > 1:
+            raise Unsupported(f"format key {k!r} constructs several classes ({a} / {b})")
+        if bool(a) != bool(b):
+            ctx.finding(qw if a else ql, f"format key {k}", f"format key {k!r} is handled by only one of Motl.write_out / Motl.load", fw if a else fl,
+                        mw if a else ml)
+        elif a != b:
+            ctx.finding(qw, f"format key {k}", f"format key {k!r} is written by {a[0]} but loaded by {b[0]}", fw, mw)
+    for name, t, mm, ff in (("write_out", tw, mw, fw), ("load", tl, ml, fl)):
+        if t["emmotl"] != ["EmMotl"]:
+            ctx.finding(f"cryomotl.Motl.{name}", "dispatch on 'emmotl'", f"Motl.{name} must map 'emmotl' to EmMotl", ff, mm)
+        if t["no-such-format"]:
+            ctx.finding(f"cryomotl.Motl.{name}", "unknown format key", f"Motl.{name} must refuse an unknown format key (it constructs "
+                        f"{t['no-such-format']})", ff, mm)
 
 
 def _obligations():
